@@ -60,13 +60,14 @@ type world struct {
 	rrTotal, rrHeld sdk.Int
 	rrVariant string
 	custN, custMode int
+	ghost        map[string]map[int]bool // ghost record: lower-case hash -> listed custodians whose approval was accepted
 	foreignFees  int      // 0: ukex fees only, 1: ukex+ubtc, 2: ukex+ubtc+xeth
 	compoundDesc []string // the compound settings of this history (replay data)
 }
 
 func newWorld(seed uint64, r *hx.Rng, rec *recorder, hist int) *world {
 	w := &world{r: r, rec: rec, hist: hist, seed: seed, ids: map[string]int64{}, names: map[int64]string{}, nextU: 100, nextE: 1500,
-		nameIDs: map[string]int64{}, secretOf: map[int]string{}}
+		nameIDs: map[string]int64{}, secretOf: map[int]string{}, ghost: map[string]map[int]bool{}}
 	w.c = abci.NewChain(abci.Config{Accounts: nAcc, Validators: 2, Seed: seed, Gov: func(g *govtypes.GenesisState) {
 		g.NetworkProperties.AutocompoundIntervalNumBlocks = uint64(1 + hist%2) // compounding rounds happen within a history
 	}})
@@ -197,20 +198,20 @@ func (w *world) must(op string, msgs []sdk.Msg, signers []int) {
 
 func (w *world) setupStaking() {
 	w.must("upsert-staking-pool", []sdk.Msg{mstypes.NewMsgUpsertStakingPool(w.astr(0), w.valStr, true, sdk.NewDecWithPrec(10, 2))}, []int{0})
-	for _, d := range []int{1, 2, 3} {
+	for _, d := range []int{1, 2, 3, 4} {
 		amt := sdk.NewCoins(ukex(500_000_000_000 + int64(w.r.Intn(1000))))
 		if d == 2 {
 			amt = amt.Add(sdk.NewInt64Coin("ubtc", 70_000+int64(w.r.Intn(1000))))
 		}
 		w.must("delegate", []sdk.Msg{mstypes.NewMsgDelegate(w.astr(d), w.valStr, amt)}, []int{d})
 	}
-	for _, d := range []int{1, 2, 3} {
+	for _, d := range []int{1, 2, 3, 4} {
 		w.must("undelegate", []sdk.Msg{mstypes.NewMsgUndelegate(w.astr(d), w.valStr, sdk.NewCoins(ukex(1_000+int64(w.r.Intn(5000)))))}, []int{d})
 	}
 	w.setupCompound()
 	// unclaimed rewards: recorded through the keeper, funded into the fee collector
 	ctx := w.ctx()
-	for _, d := range []int{0, 1, 2} {
+	for _, d := range []int{0, 1, 2, 4} {
 		rw := sdk.NewCoins(ukex(4000 + int64(w.r.Intn(1000))))
 		// rewards already on record in the other fee denoms (the same denoms the fees of this
 		// history are paid in), so that a compounding round meets non-compoundable leftovers
@@ -304,6 +305,7 @@ func (w *world) setupLayer2() {
 	w.nameID("dappb")
 	w.must("create-dapp", []sdk.Msg{&l2types.MsgCreateDappProposal{Sender: w.astr(1), Dapp: mk("dappa", "da"), Bond: ukex(20_000_000_000)}}, []int{1})
 	w.must("bond-dapp", []sdk.Msg{&l2types.MsgBondDappProposal{Sender: w.astr(2), DappName: "dappa", Bond: ukex(5_000_000_000 + int64(w.r.Intn(1000)))}}, []int{2})
+	w.must("bond-dapp", []sdk.Msg{&l2types.MsgBondDappProposal{Sender: w.astr(4), DappName: "dappa", Bond: ukex(3_000_000_000 + int64(w.r.Intn(1000)))}}, []int{4})
 	// an active dapp that accepts bonded verifiers; accounts 3 and 6 hold its LP token
 	ctx := w.ctx()
 	d := mk("dappb", "db")
@@ -351,8 +353,12 @@ func (w *world) custodyBoundary() {
 		if len(w.custHashes) == 0 {
 			return
 		}
-		w.tx("custody-approve", false, []sdk.Msg{custodytypes.NewMsgApproveCustodyTransaction(w.addr(c), w.addr(w.custOwner), w.custHashes[0])}, []int{c})
-		w.refreshCustody()
+		h := w.custHashes[0]
+		w.approve("custody-approve", false, c, w.spell(h))
+		if len(w.custHashes) == 0 {
+			return
+		}
+		w.approve("custody-approve-repeat", true, c, strings.ToUpper(h))
 	}
 }
 
@@ -445,17 +451,21 @@ func (w *world) setupCollective() {
 	w.nameID("col1")
 	w.must("create-collective", []sdk.Msg{msg}, []int{1})
 	w.must("contribute-collective", []sdk.Msg{collectivestypes.NewMsgBondCollective(w.addr(2), "col1", sdk.NewCoins(sdk.NewInt64Coin("v1/ukex", 50_000_000_000)))}, []int{2})
+	w.must("contribute-collective", []sdk.Msg{collectivestypes.NewMsgBondCollective(w.addr(4), "col1", sdk.NewCoins(sdk.NewInt64Coin("v1/ukex", 30_000_000_000)))}, []int{4})
 }
 
 func (w *world) setupSpending() {
 	msg := spendingtypes.NewMsgCreateSpendingPool("pool1", uint64(w.c.Time.Unix()), 0, sdk.NewDecCoins(sdk.NewDecCoinFromDec("ukex", sdk.NewDecWithPrec(1, 1))),
 		sdk.NewDecWithPrec(30, 2), 600, 300, spendingtypes.PermInfo{OwnerAccounts: []string{w.astr(0)}},
-		spendingtypes.WeightedPermInfo{Accounts: []spendingtypes.WeightedAccount{{Account: w.astr(1), Weight: sdk.OneDec()}, {Account: w.astr(2), Weight: sdk.OneDec()}}}, w.addr(0), false, 0)
+		spendingtypes.WeightedPermInfo{Accounts: []spendingtypes.WeightedAccount{{Account: w.astr(1), Weight: sdk.OneDec()}, {Account: w.astr(2), Weight: sdk.OneDec()},
+			{Account: w.astr(4), Weight: sdk.OneDec()}, {Account: w.astr(0), Weight: sdk.OneDec()}}}, w.addr(0), false, 0)
 	msg.ClaimExpiry = 100000
 	w.must("create-spending-pool", []sdk.Msg{msg}, []int{0})
 	w.must("deposit-spending-pool", []sdk.Msg{spendingtypes.NewMsgDepositSpendingPool("pool1", sdk.NewCoins(ukex(50_000_000)), w.addr(0))}, []int{0})
 	w.tx("register-spending-beneficiary", false, []sdk.Msg{spendingtypes.NewMsgRegisterSpendingPoolBeneficiary("pool1", w.addr(1))}, []int{1})
-	w.tx("register-spending-beneficiary", false, []sdk.Msg{spendingtypes.NewMsgRegisterSpendingPoolBeneficiary("pool1", w.addr(2))}, []int{2})
+	for _, b := range []int{2, 4, 0} {
+		w.tx("register-spending-beneficiary", false, []sdk.Msg{spendingtypes.NewMsgRegisterSpendingPoolBeneficiary("pool1", w.addr(b))}, []int{b})
+	}
 }
 
 // ---------------------------------------------------------------- operations
@@ -658,8 +668,21 @@ func (w *world) opTable() map[string]opFn {
 				return
 			}
 			s := w.custodians[w.r.Intn(len(w.custodians))]
-			w.tx("custody-approve", false, []sdk.Msg{custodytypes.NewMsgApproveCustodyTransaction(w.addr(s), w.addr(w.custOwner), w.custHashes[0])}, []int{s})
-			w.refreshCustody()
+			w.approve("custody-approve", false, s, w.spell(w.custHashes[0]))
+		},
+		"x:custody-approve-repeat": func(w *world) { // one custodian approves again in another spelling of the hash
+			if len(w.custHashes) == 0 {
+				return
+			}
+			s := w.custodians[w.r.Intn(len(w.custodians))]
+			h := w.custHashes[0]
+			w.approve("custody-approve", false, s, h)
+			if len(w.custHashes) > 0 {
+				w.approve("custody-approve-repeat", true, s, strings.ToUpper(h))
+			}
+			if len(w.custHashes) > 0 {
+				w.approve("custody-approve-repeat", true, s, w.spell(h))
+			}
 		},
 		"h:custody-send": func(w *world) { w.custodySend() },
 		"x:custody-approve-by-stranger": func(w *world) {
@@ -667,22 +690,21 @@ func (w *world) opTable() map[string]opFn {
 				return
 			}
 			s := w.r.Intn(5)
-			w.tx("custody-approve-by-stranger", true, []sdk.Msg{custodytypes.NewMsgApproveCustodyTransaction(w.addr(s), w.addr(w.custOwner), w.custHashes[0])}, []int{s})
-			w.refreshCustody()
+			w.approve("custody-approve-by-stranger", true, s, w.spell(w.custHashes[0]))
 		},
 		"x:custody-decline-by-stranger": func(w *world) {
 			if len(w.custHashes) == 0 {
 				return
 			}
 			s := w.r.Intn(5)
-			w.tx("custody-decline-by-stranger", true, []sdk.Msg{custodytypes.NewMsgDeclineCustodyTransaction(w.addr(s), w.addr(w.custOwner), w.custHashes[0])}, []int{s})
+			w.tx("custody-decline-by-stranger", true, []sdk.Msg{custodytypes.NewMsgDeclineCustodyTransaction(w.addr(s), w.addr(w.custOwner), w.spell(w.custHashes[0]))}, []int{s})
 		},
 		"x:custody-confirm-by-stranger": func(w *world) {
 			if len(w.custHashes) == 0 {
 				return
 			}
 			s := w.r.Intn(5)
-			w.tx("custody-confirm-by-stranger", true, []sdk.Msg{custodytypes.NewMsgPasswordConfirmTransaction(w.addr(s), w.addr(w.custOwner), w.custHashes[0], "x")}, []int{s})
+			w.tx("custody-confirm-by-stranger", true, []sdk.Msg{custodytypes.NewMsgPasswordConfirmTransaction(w.addr(s), w.addr(w.custOwner), w.spell(w.custHashes[0]), "x")}, []int{s})
 			w.refreshCustody()
 		},
 		"h:recovery-rotate": func(w *world) {
@@ -691,7 +713,33 @@ func (w *world) opTable() map[string]opFn {
 				return
 			}
 			na := w.freshAddr()
-			w.tx("recovery-rotate", false, []sdk.Msg{recoverytypes.NewMsgRotateRecoveryAddress(w.astr(4), w.astr(4), na.String(), sec)}, []int{4})
+			if !w.late && w.r.Chance(70) { // mostly late, so that a4 keeps acting with all its claims
+				return
+			}
+			if w.r.Bool() {
+				w.tx("recovery-rotate", false, []sdk.Msg{recoverytypes.NewMsgRotateRecoveryAddress(w.astr(4), w.astr(4), na.String(), sec)}, []int{4})
+			} else { // separate fee payer: GetSigners = [fee payer, address]
+				fp := w.other(4)
+				w.tx("recovery-rotate-fee-payer", false, []sdk.Msg{recoverytypes.NewMsgRotateRecoveryAddress(w.astr(fp), w.astr(4), na.String(), sec)}, []int{fp, 4})
+			}
+		},
+		"h:two-signers-two-msgs": func(w *world) {
+			a := w.r.Intn(nAcc)
+			b := w.other(a)
+			w.tx("two-signers-two-msgs", false, []sdk.Msg{banktypes.NewMsgSend(w.addr(a), w.addr(b), sdk.NewCoins(ukex(10+int64(w.r.Intn(1000))))),
+				banktypes.NewMsgSend(w.addr(b), w.addr(a), sdk.NewCoins(sdk.NewInt64Coin("ubtc", 1+int64(w.r.Intn(50)))))}, []int{a, b})
+		},
+		"h:separate-fee-payer": func(w *world) { // the fee payer signs too; only signers may be debited
+			a := w.r.Intn(nAcc)
+			b := w.other(a)
+			fp := w.other(a)
+			w.txFeePayer("separate-fee-payer", false, []sdk.Msg{banktypes.NewMsgSend(w.addr(a), w.addr(b), sdk.NewCoins(ukex(10+int64(w.r.Intn(1000)))))}, []int{a}, fp, true)
+		},
+		"x:fee-payer-unsigned": func(w *world) { // the named fee payer does not sign
+			a := w.r.Intn(nAcc)
+			b := w.other(a)
+			fp := w.other(a)
+			w.txFeePayer("fee-payer-unsigned", true, []sdk.Msg{banktypes.NewMsgSend(w.addr(a), w.addr(b), sdk.NewCoins(ukex(10)))}, []int{a}, fp, false)
 		},
 		"x:recovery-rotate-other": func(w *world) { // fee payer signs alone, names the victim's address
 			s := w.r.Intn(nAcc)
@@ -751,6 +799,40 @@ func (w *world) opTable() map[string]opFn {
 	}
 }
 
+// spell: the hash in one of the spellings the code normalises (it lower-cases hashes)
+func (w *world) spell(h string) string {
+	switch w.r.Intn(3) {
+	case 0:
+		return h
+	case 1:
+		return strings.ToUpper(h)
+	}
+	b := []byte(h)
+	for i := range b {
+		if i%2 == 0 && b[i] >= 'a' && b[i] <= 'f' {
+			b[i] -= 32
+		}
+	}
+	return string(b)
+}
+
+// approve: one approval message, any spelling; the ghost record notes accepted approvals of listed custodians
+func (w *world) approve(op string, attack bool, s int, hash string) {
+	lower := strings.ToLower(hash)
+	r := w.tx(op, attack, []sdk.Msg{custodytypes.NewMsgApproveCustodyTransaction(w.addr(s), w.addr(w.custOwner), hash)}, []int{s})
+	if r.Code == 0 && r.Panic == "" {
+		for _, c := range w.custodians {
+			if c == s {
+				if w.ghost[lower] == nil {
+					w.ghost[lower] = map[int]bool{}
+				}
+				w.ghost[lower][s] = true
+			}
+		}
+	}
+	w.refreshCustody()
+}
+
 func (w *world) refreshCustody() {
 	pool := w.c.App.CustodyKeeper.GetCustodyPoolByAddress(w.ctx(), w.addr(w.custOwner))
 	var hs []string
@@ -784,32 +866,42 @@ func (w *world) facts(msgs []sdk.Msg, signers []int) (coq []string, js []string)
 		rec := pool.Record[hash]
 		settings := app.CustodyKeeper.GetCustodyInfoByAddress(ctx, target)
 		cl := app.CustodyKeeper.GetCustodyCustodiansByAddress(ctx, target)
-		n := 0
-		callerIs := false
-		legit := 0
-		if cl != nil {
-			n = len(cl.Addresses)
-			callerIs = cl.Addresses[caller.String()]
-			for a := range cl.Addresses {
-				ca, err := sdk.AccAddressFromBech32(a)
-				if err != nil {
-					continue
-				}
-				if app.CustodyKeeper.GetApproveCustody(ctx, &custodytypes.MsgApproveCustodyTransaction{FromAddress: ca, TargetAddress: target, Hash: hash}) == "1" {
-					legit++
-				}
+		// the checker's own record: who is a listed custodian (from the accepted settings messages)
+		// and which of them had an approval of THIS transfer accepted (distinct approvers);
+		// the vote store of the module is not consulted
+		n := len(w.custodians)
+		callerIdx := -1
+		for _, c := range w.custodians {
+			if w.addr(c).Equals(caller) {
+				callerIdx = c
 			}
 		}
-		voted := app.CustodyKeeper.GetApproveCustody(ctx, &custodytypes.MsgApproveCustodyTransaction{FromAddress: caller, TargetAddress: target, Hash: hash}) != "0"
+		callerIs := callerIdx >= 0 && target.Equals(w.addr(w.custOwner))
+		legit := 0
+		voted := false
+		for c := range w.ghost[hash] {
+			if c == callerIdx {
+				voted = true
+			} else {
+				legit++
+			}
+		}
+		if !target.Equals(w.addr(w.custOwner)) {
+			n, legit = 0, 0
+		}
+		_ = cl
 		enabled, usepw, mode := false, false, uint64(0)
 		if settings != nil {
 			enabled, usepw, mode = settings.CustodyEnabled, settings.UsePassword, settings.CustodyMode
 		}
 		pwok := !usepw || rec.Confirmed
 		to, _ := sdk.AccAddressFromBech32(rec.Transaction.ToAddress)
-		coq = append(coq, fmt.Sprintf("FCustody %s %s %s %s %d %d %d %s %s %s %d", hx.Z(w.id(target.String())), hx.Z(w.id(to.String())),
-			coinsZ(rec.Transaction.Amount), coinsZ(rec.Transaction.Reward), legit, n, mode, hx.B(enabled), hx.B(pwok), hx.B(callerIs && !voted), rec.Votes))
-		js = append(js, fmt.Sprintf("custody request of %s to %s amount %s reward %s: approvals by listed custodians %d of %d (votes on record %d), mode %d%%, enabled %v, password ok %v, caller is a listed custodian who has not voted %v",
+		if voted {
+			legit++ // the caller's earlier approval stays counted once
+		}
+		coq = append(coq, fmt.Sprintf("FCustody %s %s %s %s %d %d %d %s %s %s %d %s", hx.Z(w.id(target.String())), hx.Z(w.id(to.String())),
+			coinsZ(rec.Transaction.Amount), coinsZ(rec.Transaction.Reward), legit, n, mode, hx.B(enabled), hx.B(pwok), hx.B(callerIs && !voted), rec.Votes, hx.B(callerIs)))
+		js = append(js, fmt.Sprintf("custody request of %s to %s amount %s reward %s: DISTINCT listed custodians with an accepted approval %d of %d (votes on record %d), mode %d%%, enabled %v, password ok %v, caller is a listed custodian who has not voted %v",
 			w.name(w.id(target.String())), w.name(w.id(to.String())), rec.Transaction.Amount, rec.Transaction.Reward, legit, n, rec.Votes, mode, enabled, pwok, callerIs && !voted))
 	}
 	for _, m := range msgs {
